@@ -5,7 +5,8 @@ import numpy as np, pandas as pd
 import pandapower as pp
 
 
-def rich_net(rng, n_dcline=None, gens=None, taptab=None, nb=None, index_gap=None, shift=150, bb_switch=None):
+def rich_net(rng, n_dcline=None, gens=None, taptab=None, nb=None, index_gap=None, shift=150, bb_switch=None,
+             xward=0, trafo3w=0, ctrl_sgen=0):
     """meshed 110 kV ring of nb buses + one 20 kV bus behind a transformer"""
     net = pp.create_empty_network()
     nb = nb or rng.randint(3, 5)
@@ -64,6 +65,23 @@ def rich_net(rng, n_dcline=None, gens=None, taptab=None, nb=None, index_gap=None
             "angle_deg": [0.] * 5, "vk_percent": [11., 11.5, 12., 12.5, 13.], "vkr_percent": [0.4375, 0.46875, 0.5, 0.53125, 0.5625],
             "vk_hv_percent": np.nan, "vkr_hv_percent": np.nan, "vk_mv_percent": np.nan, "vkr_mv_percent": np.nan,
             "vk_lv_percent": np.nan, "vkr_lv_percent": np.nan})
+    # elements with an internal (auxiliary) bus in the ppc: their start values for init="results" come from their own
+    # result tables
+    for k in range(int(xward)):
+        pp.create_xward(net, [lv, b[-1]][k % 2], ps_mw=0.25, qs_mvar=0.125, pz_mw=0.125, qz_mvar=0.0, r_ohm=0.5, x_ohm=2.0, vm_pu=vm)
+    for k in range(int(trafo3w)):
+        mv = pp.create_bus(net, 20.)
+        lv3 = pp.create_bus(net, 10.)
+        pp.create_transformer3w_from_parameters(net, b[(k + 2) % nb], mv, lv3, vn_hv_kv=110., vn_mv_kv=20., vn_lv_kv=10.,
+                                                sn_hv_mva=40., sn_mv_mva=25., sn_lv_mva=15., vk_hv_percent=10., vk_mv_percent=11.,
+                                                vk_lv_percent=12., vkr_hv_percent=0.3, vkr_mv_percent=0.31, vkr_lv_percent=0.32,
+                                                pfe_kw=10., i0_percent=0.05, shift_mv_degree=0., shift_lv_degree=0.)
+        pp.create_load(net, mv, p_mw=1.5, q_mvar=0.25)
+        pp.create_load(net, lv3, p_mw=0.75, q_mvar=0.125)
+    for k in range(int(ctrl_sgen)):
+        sg = pp.create_sgen(net, b[(k + 1) % nb], p_mw=1.0, q_mvar=0.0, controllable=True, min_p_mw=0., max_p_mw=2., min_q_mvar=-1.,
+                            max_q_mvar=1.)
+        pp.create_poly_cost(net, sg, "sgen", 1.5)
     pp.create_poly_cost(net, 0, "ext_grid", 1.0)
     for g in net.gen.index:
         pp.create_poly_cost(net, g, "gen", 2.0)
